@@ -325,10 +325,10 @@ UNITS['ranges'] = {
         "RG_STARTS3": "13param_matchesINS_17predicate_matcherINS_4impl28starts_with_elements_checkerE.*NS7_ILi3EEEEEEJS8_S9_SA_EEE",
         "RG_ENDS2": "13param_matchesINS_17predicate_matcherINS_4impl17ends_with_checkerE.*vp_absILi1EEENS7_ILi2EEEEEEJS8_S9_EEE",
         "RG_ENDS3": "13param_matchesINS_17predicate_matcherINS_4impl17ends_with_checkerE.*NS7_ILi3EEEEEEJS8_S9_SA_EEE",
-        "RG_ALL": "13param_matchesINS_17predicate_matcherINS_4impl20range_all_of_checkerE",
-        "RG_ANY": "13param_matchesINS_17predicate_matcherINS_4impl20range_any_of_checkerE",
-        "RG_NONE": "13param_matchesINS_17predicate_matcherINS_4impl21range_none_of_checkerE",
-        "RG_IS_VALUES": "13param_matchesINS_17predicate_matcherINS_4impl19is_elements_checkerE.*JiiiEEEJiiiEEE"
+        "RG_ALL": "13param_matchesINS_17predicate_matcherINS_4impl20range_all_of_checkerE.*St17reference_wrapperIA3_iEE",
+        "RG_ANY": "13param_matchesINS_17predicate_matcherINS_4impl20range_any_of_checkerE.*St17reference_wrapperIA3_iEE",
+        "RG_NONE": "13param_matchesINS_17predicate_matcherINS_4impl21range_none_of_checkerE.*St17reference_wrapperIA3_iEE",
+        "RG_IS_VALUES": "13param_matchesINS_17predicate_matcherINS_4impl19is_elements_checkerE.*JiiiEEEJiiiEEESt17reference_wrapperIA3_iEE"
 },
 }
 for e in ('r_is', 'r_is_values', 'r_starts_ends', 'r_all_any_none'):
@@ -507,7 +507,7 @@ UNITS['mf_glue'] = {
     'stub_aliases': {'FIND_STUB': r'^f__ZN11trompeloeil4findIFiiEE', 'REPORT_MISMATCH_STUB': r'^f__ZN11trompeloeil15report_mismatchIFiiEE',
                      'VS_CMB_RUN_ACTIONS': r'^vs_.*call_matcher_baseIFiiEE11run_actions', 'VS_CMB_RETURN_VALUE': r'^vs_.*call_matcher_baseIFiiEE12return_value', 'VS_TRACE': r'^vs_.*6tracer5trace'},
 }
-ob(name='mock_func.glue.contract', kind='FC+', props=['C01', 'C02', 'C08', 'C14', 'C15', 'C17'], unit='mf_glue', harness='h_mf_glue.c', entry='g_glue', unwind=4, defines={'VP_TOK_CAP': 12},
+ob(name='mock_func.glue.contract', kind='FC+', props=['C01', 'C02', 'C08', 'C14', 'C15', 'C17'], unit='mf_glue', harness='h_mf_glue.c', entry='g_glue', unwind=66, defines={'VP_TOK_CAP': 12},
    bound='none: expectation lists of any length (find() answers by contract: null or any live matcher); every behaviour of the two virtual calls (return / std exception / other exception)')
 
 # unit dtor_fc: the end-of-lifetime decision (user-written body of ~call_matcher, mock_destroyed) - loop-free, unbounded (C04)
